@@ -29,6 +29,11 @@ class SimFault(Exception):
     """Raised by the user party's operator callback (injected crash of the call in flight)."""
 
 
+class SimInterrupt(KeyboardInterrupt):
+    """An asynchronous interrupt (Ctrl-C, a cancelled task) delivered at an arbitrary source line of cola: NOT an Exception, so
+    `except Exception` clean-up code does not see it -- only try/finally does."""
+
+
 class HarnessBound(BaseException):
     pass
 
@@ -932,6 +937,56 @@ class Ctx:
         else:
             self.check_invariants(sid, after)
 
+    def _line_interrupted(self, body, at, cur):
+        """Crash at an arbitrary SOURCE LINE: the `at`-th line event of this step inside cola/ raises SimInterrupt (an asynchronous
+        interrupt: a KeyboardInterrupt subclass) in the frame that is about to execute that line.  With at=None the events are only
+        counted and the first / last occurrence of every distinct line recorded (the twin of the line-level enumeration)."""
+        import sys
+        cola_dir = world.REPO.rstrip("/") + "/cola/"
+        n = [0]
+        first, last = {}, {}
+        self._last_line_points = (n, first, last)
+        depth_mod = [0]
+
+        def local(frame, event, arg):
+            if event == "line" and not depth_mod[0] and self.harness_depth == 0:
+                n[0] += 1
+                if at is None:
+                    w = (frame.f_code.co_filename, frame.f_lineno)
+                    first.setdefault(w, n[0])
+                    last[w] = n[0]
+                elif n[0] == at:
+                    cur.fault_fired.add("interrupt")
+                    self.fired["interrupt"] += 1
+                    self._interrupt_line = "%s:%d" % (frame.f_code.co_filename[len(cola_dir) - 5:], frame.f_lineno)
+                    sys.settrace(None)
+                    raise SimInterrupt("line event %d" % at)
+            return local
+
+        def module_body(frame, event, arg):
+            if event == "return":
+                depth_mod[0] -= 1
+            return module_body
+
+        def glob(frame, event, arg):
+            if event == "call":
+                if frame.f_code.co_name == "<module>":
+                    depth_mod[0] += 1
+                    return module_body
+                if frame.f_code.co_filename.startswith(cola_dir):
+                    return local
+            return None
+
+        def wrapped():
+            old = sys.gettrace()
+            sys.settrace(glob)
+            try:
+                return body()
+            finally:
+                sys.settrace(old)
+
+        return wrapped
+
     def _line_observed(self, body):
         """Continuous observer: after EVERY source line the call executes inside cola/ the process-wide generator must be in the
         reference model's state (exhaustive over the pre-emption points of this execution: what a second caller thread that
@@ -1035,7 +1090,8 @@ class Ctx:
             cb = x.get("cb") or {}
             # (a clock jump is a fault too: the result under it must equal the fault-free twin's)
             faulted = (x.get("alloc") is not None or x.get("pbar_fail") is not None or bool(x.get("clock"))
-                       or any(a[0] in ("raise", "nonfinite") for a in cb.values()))
+                       or x.get("interrupt") is not None or any(a[0] in ("raise", "nonfinite") for a in cb.values()))
+            f["interrupt_at"] = x.get("interrupt")
             if x.get("alloc") is not None:
                 f["alloc_k"], f["minb"] = x["alloc"]["k"], x["alloc"].get("minb", 0)
             f["pbar_at"] = x.get("pbar_fail")
@@ -1129,6 +1185,8 @@ class Ctx:
             x["pbar_fail"] = f["pbar_at"]
         if cur.clock_list:
             x["clock"] = cur.clock_list
+        if f.get("interrupt_at") is not None:
+            x["interrupt"] = f["interrupt_at"]
         if x:
             self.step_out[sid]["x"] = x
 
@@ -1173,6 +1231,8 @@ class Ctx:
         res = None
         if k is not None:
             world.crumb({"armed": sid, "k": k, "minb": f["minb"], "what": step.get("fn") or step.get("recipe", {}).get("k")})
+        if f.get("interrupt_at") is not None or getattr(self, "_count_lines", False):
+            body = self._line_interrupted(body, f.get("interrupt_at"), cur)
         ALLOC.arm(-1 if k is None else k, f["minb"])
         try:
             try:
@@ -1182,7 +1242,7 @@ class Ctx:
             except BaseException:
                 st = ALLOC.disarm()
                 raise
-        except SimFault:
+        except (SimFault, SimInterrupt):
             outcome = ["simfault", ""]
         except (HarnessBound, Violation):
             self._materialise(sid, cur, f, k)  # the replay file must contain the action that exposed it
